@@ -10,7 +10,10 @@ use std::collections::VecDeque;
 use std::io::{self, Write};
 use std::mem;
 use std::pin::Pin;
+#[cfg(not(feature = "verif-hooks"))]
 use std::sync::{Arc, Mutex};
+#[cfg(feature = "verif-hooks")]
+use {crate::verif_hooks::Mutex, std::sync::Arc};
 use std::task::Poll;
 
 use http_body::SizeHint;
